@@ -61,6 +61,8 @@ def run_auto(case):
                             p.set_message("".join(it["m"]))
                         elif it["k"] == "work":
                             b.work()
+                        elif it["k"] == "interrupt":
+                            raise KeyboardInterrupt()
                         else:
                             raise BodyError("the body fails")
             finally:
@@ -160,7 +162,7 @@ def random_case(rng):
         elif x < 0.9:
             body.append({"k": "work", "m": []})
         else:
-            body.append({"k": "raise", "m": []})
+            body.append({"k": rng.choice(["raise", "raise", "interrupt"]), "m": []})
             break
     cfg = {"w": 40, "interval": rng.choice([100, 100, 100, 50, 200, 0]), "start": list("AAAA"), "end": list("END"), "body": body}
     sched = []
@@ -338,7 +340,7 @@ def run(ctx):
         "model; steps = the yield points of the baton scheduler: every stream write, sleep, Thread.start/join, Event.set/"
         "is_set, Lock.acquire) for every with-body of the configured family, checking NoMix, Joined, EndFrame on every "
         "state and Terminates under weak fairness; it must find NoMix violated when the lock is taken out of the model. "
-        "Every complete schedule of the small bodies (all interleavings), pre-emption-bounded schedules of larger bodies "
+        "Every schedule of the small bodies with at most 4 pre-emptions (thorough: all their interleavings), pre-emption-bounded schedules of larger bodies "
         "and simulated long ones are enforced step by step on the real ProgressIndicator.auto() running on real threads "
         "under the baton scheduler and compared per step (thread, operation, bytes as terminal ops) and in the outcome; "
         "seeded random schedules (bodies up to 6 items, intervals 0..200 ms, clock steps 30..250 ms) are recorded and "
@@ -376,7 +378,8 @@ def run(ctx):
     traces, cases, labels = [], [], set()
     state = {"seen": set(), "not_reproduced": 0, "sample": None}
     n_all = 0
-    for cfg in (["MC_Spinner_sched_quick.cfg"] if quick else ["MC_Spinner_sched_quick.cfg", "MC_Spinner_sched_thorough.cfg"]):
+    # quick: every schedule of the small bodies with <= 4 pre-emptions; thorough: all their interleavings + larger bodies
+    for cfg in (["MC_Spinner_sched_quick.cfg"] if quick else ["MC_Spinner_sched_all.cfg", "MC_Spinner_sched_thorough.cfg"]):
         r = ctx.model(SPEC, "MC_Spinner", cfg, name="schedules " + cfg, workers=8)
         n_all += _replay_auto(ctx, r, traces, cases, labels, state)
     r = ctx.model(SPEC, "MC_Spinner", "MC_Spinner_sim.cfg", name="simulated schedules", simulate="num=%d" % (150 if quick else 8000),
